@@ -406,6 +406,19 @@ func evalOp(op opcode, s ssort, argSort ssort, p0, p1 int, a []uint64) (uint64, 
 
 func mk(op opcode, s ssort, args ...*term) *term { return mkP(op, s, 0, 0, "", args...) }
 
+func iteDepth(t *term) int {
+	d := 0
+	for t.op == oIte {
+		d++
+		if t.args[2].op == oIte {
+			t = t.args[2]
+		} else {
+			t = t.args[1]
+		}
+	}
+	return d
+}
+
 func mkP(op opcode, s ssort, p0, p1 int, name string, args ...*term) *term {
 	// constant folding
 	if op != oUF && op != oVar && op != oConst {
@@ -436,6 +449,30 @@ func mkP(op opcode, s ssort, p0, p1 int, name string, args ...*term) *term {
 	if !disableIntFloat {
 		if r := intFloatSimplify(op, s, p0, args); r != nil {
 			return r
+		}
+		// a float predicate or operation over ite(c, A, B) with a constant branch is distributed into the
+		// branches: the constant side folds and the other side may become integer arithmetic
+		switch op {
+		case oFLt, oFLe, oFEq, oFIsNaN, oFIsInf, oFAdd, oFSub, oFNeg, oEq:
+			if len(args) > 0 && args[0].sort == sF64 {
+				for i, a := range args {
+					if a.op == oIte && a.sort == sF64 && (a.args[1].isConst() || a.args[2].isConst()) && iteDepth(a) <= 3 {
+						other := true
+						for j, b := range args {
+							if j != i && b.op == oIte {
+								other = false // one operand at a time: no blow-up
+							}
+						}
+						if !other {
+							break
+						}
+						l := append([]*term{}, args...)
+						r := append([]*term{}, args...)
+						l[i], r[i] = a.args[1], a.args[2]
+						return tIte(a.args[0], mkP(op, s, p0, p1, name, l...), mkP(op, s, p0, p1, name, r...))
+					}
+				}
+			}
 		}
 	}
 	// light simplification
